@@ -1343,11 +1343,11 @@ class AnyPayloadDecoder(AbstractSimplePayloadDecoder):
             length += currentPosition - fullPosition
 
             if LOG:
-                for chunk in peekIntoStream(substrate, length):
-                    if isinstance(chunk, SubstrateUnderrunError):
-                        yield chunk
-                LOG('decoding as untagged ANY, substrate '
-                    '%s' % debug.hexdump(chunk))
+                # (not showing the octets: looking ahead for all of them
+                # fails on substrates that hand out less at a time, which
+                # would make the outcome depend on logging being on)
+                LOG('decoding as untagged ANY, %d octets of '
+                    'substrate' % length)
 
         if substrateFun:
             for chunk in substrateFun(
